@@ -26,6 +26,7 @@ pub static DEF: ScenDef = ScenDef {
     shrink_cfg,
     shrink_op,
     worker_init: crate::scen::no_init,
+    crash_owner: crate::scen::crash_is_ours,
 };
 
 fn budget(_prop: &str, tier: Tier) -> u64 {
